@@ -1,4 +1,5 @@
-"""C04 harness: ClientDataset.shuffle_repeat_batch against the mirrored iterator."""
+"""C04 harness: ClientDataset.shuffle_repeat_batch against the mirrored iterator
+(`batches`, proved equal to the translated generator `srb_iter` in Proofs/C04_IterProofs.v)."""
 import itertools
 import numpy as np
 from lib import fw
@@ -8,13 +9,16 @@ COQ_HEADER = 'From FV Require Import Model.C04_Model.'
 COQ_AGREE = 'C04_agree'
 COQ_MODEL_TARGETS = ['Model/C04_Model']
 RULE = ('grid N 0..12 x bs 1..2N+3 x num_epochs {None,1,2,3} x num_steps {None,0,1,2,5,9} x drop_remainder x '
-        'skip_shuffle, seeds from VERIF_SEED, plus random larger (N, bs); infinite streams observed on a 7-batch prefix; '
+        'skip_shuffle, seeds from VERIF_SEED, plus random larger (N, bs); every 9th grid case draws from a dataset obtained by slicing a larger parent; three call forms (hparams object, keywords, hparams '
+        'object overridden by keywords incl. overrides to None); every view iterated twice + a fresh view + two interleaved '
+        'live iterators; infinite streams observed on a 7-batch prefix; '
         'non-trivial = N >= 1 and at least one batch drawn; distinct = distinct case JSON')
 TRUSTED = ['numpy RandomState.shuffle returns a permutation of its argument and is a function of (seed, call history) '
            '(asserted on every recovered window)']
 ASSUMPTIONS = ['the k-th rng.shuffle result is recorded through a RandomState subclass (the `np` name of client_datasets is swapped for a proxy in the harness process) and fed to the model as its oracle',
-               'statistical side-checks (reshuffled windows differ, non-identity order) only for N >= 10: false-alarm probability < 1e-6 per run']
-CASE_TIMEOUT = 5
+               'statistical side-checks (reshuffled windows differ, non-identity order) only for N >= 12: false-alarm probability < 1e-6 per run',
+               'C04_iterator_translated: rng.shuffle keeps the length of its argument (in-place shuffle)']
+CASE_TIMEOUT = 20   # generous: the machine is shared; a real hang (N = 0 without the early return) costs 3 x 20 s
 PREFIX = 7
 
 
@@ -32,49 +36,110 @@ def generate(tier, rng):
         for s in steps:
           i += 1
           yield {'n': n, 'bs': bs, 'epochs': e, 'steps': s, 'drop': bool(i % 2), 'skip': i % 5 == 0,
-                 'seed': rng.randrange(1 << 30), 'kw': i % 3 == 0}
+                 'seed': rng.randrange(1 << 30), 'kw': i % 3 == 0, 'form': [1, 0, 2][i % 3],
+                 **({'pslice': _PSLICES[(i // 9) % len(_PSLICES)](n)} if i % 9 == 0 else {})}
           if tier != 'quick':
             yield {'n': n, 'bs': bs, 'epochs': e, 'steps': s, 'drop': not bool(i % 2), 'skip': i % 7 == 0,
-                   'seed': rng.randrange(1 << 30), 'kw': i % 3 == 1}
+                   'seed': rng.randrange(1 << 30), 'kw': i % 3 == 1, 'form': [2, 1, 0][i % 3]}
   for _ in range(nrand):
     n = rng.choice([rng.randrange(1, 40), rng.randrange(10, 200)])
     bs = rng.choice([1, 2, 3, rng.randrange(1, 2 * n + 2), n, n + 1, 2 * n])
     yield {'n': n, 'bs': bs, 'epochs': rng.choice([None, 1, 2, 3, 5]), 'steps': rng.choice([None, 0, 1, 3, 8, 20]),
-           'drop': rng.random() < 0.5, 'skip': rng.random() < 0.2, 'seed': rng.randrange(1 << 30), 'kw': False}
+           'drop': rng.random() < 0.5, 'skip': rng.random() < 0.2, 'seed': rng.randrange(1 << 30), 'kw': False,
+           'form': rng.randrange(3)}
+
+
+# the dataset is parent[a:b:c] for a parent of P rows: [P, a, b, c] selecting exactly n rows
+_PSLICES = [lambda n: [n + 2, None, n, None], lambda n: [n + 3, 2, n + 2, None], lambda n: [2 * n, None, None, 2],
+            lambda n: [n, None, None, -1], lambda n: [n + 1, -n, None, None] if n else [1, 1, None, None]]
+
+
+def _ids(case):
+  """Row ids (column x) of the dataset under test, by position; computed on a python range."""
+  if case.get('pslice'):
+    p, a, b, c = case['pslice']
+    return list(range(p))[slice(a, b, c)]
+  return list(range(case['n']))
+
+
+def _form(case):
+  """0: hparams object, 1: keywords only, 2: hparams object overridden by keywords."""
+  return case['form'] if 'form' in case else (1 if case.get('kw') else 0)
 
 
 def _view(case):
   import fedjax
-  n = case['n']
+  n = case['pslice'][0] if case.get('pslice') else case['n']
   ds = fedjax.ClientDataset({'x': np.arange(n, dtype=np.int32), 'v': np.arange(n, dtype=np.float32) * 0.5},
                             fedjax.BatchPreprocessor([lambda e: {**e, 'y': e['x'] + 1}]))
-  hp = fedjax.ShuffleRepeatBatchHParams(batch_size=case['bs'], num_epochs=case['epochs'], num_steps=case['steps'],
-                                        drop_remainder=case['drop'], seed=case['seed'], skip_shuffle=case['skip'])
-  if case['kw']:
-    return ds.shuffle_repeat_batch(batch_size=case['bs'], num_epochs=case['epochs'], num_steps=case['steps'],
-                                   drop_remainder=case['drop'], seed=case['seed'], skip_shuffle=case['skip'])
-  return ds.shuffle_repeat_batch(hp)
+  if case.get('pslice'):
+    _, a, b, c = case['pslice']
+    ds = ds[slice(a, b, c)]
+  kw = dict(batch_size=case['bs'], num_epochs=case['epochs'], num_steps=case['steps'],
+            drop_remainder=case['drop'], seed=case['seed'], skip_shuffle=case['skip'])
+  form = _form(case)
+  if form == 1:
+    return ds.shuffle_repeat_batch(**kw)
+  if form == 2:
+    # a base hparams object that differs from the case in EVERY field (None where the case
+    # has a number and a number where the case has None), overridden by keywords
+    e, st = case['epochs'], case['steps']
+    base = fedjax.ShuffleRepeatBatchHParams(
+        batch_size=case['bs'] + 1, num_epochs=1 if e is None else (None if e % 2 else e + 1),
+        num_steps=2 if st is None else (None if st % 2 else st + 1), drop_remainder=not case['drop'],
+        seed=case['seed'] + 1, skip_shuffle=not case['skip'])
+    return ds.shuffle_repeat_batch(base, **kw)
+  return ds.shuffle_repeat_batch(fedjax.ShuffleRepeatBatchHParams(**kw))
 
 
 class _Recorder:
   """Swaps the `np` name inside fedjax.core.client_datasets for a proxy whose
   random.RandomState records every shuffle() result (public seam: the view builds
-  its own RandomState from the seed, so the calls cannot be observed otherwise)."""
+  its own RandomState from the seed, so the calls cannot be observed otherwise).
+  The proxy is in place while the view is CONSTRUCTED and while it is iterated, so
+  the recording does not depend on where the implementation creates its RandomState;
+  module-level np.random.shuffle / default_rng().shuffle are recorded as well.  Only
+  calls made while `active` are recorded."""
 
   def __init__(self):
     self.shuffles = []
+    self.active = True
 
   def __enter__(self):
     from fedjax.core import client_datasets as cd
     rec = self
 
+    def note(x):
+      if rec.active:
+        rec.shuffles.append([int(v) for v in x])
+
     class RS(np.random.RandomState):
       def shuffle(self, x):
         super().shuffle(x)
-        rec.shuffles.append([int(v) for v in x])
+        note(x)
+
+    class GenProxy:
+      def __init__(self, g):
+        self._g = g
+
+      def shuffle(self, x, *a, **k):
+        self._g.shuffle(x, *a, **k)
+        note(x)
+
+      def __getattr__(self, k):
+        return getattr(self._g, k)
 
     class RandomProxy:
       RandomState = RS
+
+      @staticmethod
+      def shuffle(x):
+        np.random.shuffle(x)
+        note(x)
+
+      @staticmethod
+      def default_rng(*a, **k):
+        return GenProxy(np.random.default_rng(*a, **k))
 
       def __getattr__(self, k):
         return getattr(np.random, k)
@@ -90,6 +155,7 @@ class _Recorder:
     return self
 
   def __exit__(self, *a):
+    self.active = False
     self.cd.np = self.old
 
 
@@ -100,20 +166,42 @@ def _take(view, case):
   else:
     it = itertools.islice(it, 5000)   # finite by the documented count; the cap only guards the harness
   out, ok = [], True
+  pos = {rid: k for k, rid in enumerate(_ids(case))}
   for b in it:
     x = np.asarray(b['x'])
     ok &= bool(np.array_equal(np.asarray(b['y']), x + 1) and np.array_equal(np.asarray(b['v']), x.astype(np.float32) * 0.5)
                and x.dtype == np.int32)
-    out.append([int(v) for v in x.tolist()])
+    ok &= all(int(v) in pos for v in x.tolist())
+    out.append([pos.get(int(v), 10 ** 6) for v in x.tolist()])    # positions; 10^6 = not a row of this dataset
   return out, ok
 
 
+def _interleaved(view, case, want):
+  """Two live iterators over the same view, advanced alternately: each must reproduce
+  the sequential pass (a fixed seed gives identical batches on EVERY iteration)."""
+  k = min(len(want), 12)
+  pos = {rid: j for j, rid in enumerate(_ids(case))}
+  a, b = iter(view), iter(view)
+  got_a, got_b = [], []
+  for _ in range(k):
+    for it, got in ((a, got_a), (b, got_b)):
+      try:
+        got.append([pos.get(int(v), 10 ** 6) for v in np.asarray(next(it)['x']).tolist()])
+      except StopIteration:
+        got.append(None)
+  return got_a == want[:k] and got_b == want[:k]
+
+
 def run(case):
-  view = _view(case)
   with _Recorder() as rec:
+    view = _view(case)                 # constructed and first iterated under the recorder
     b1, ok1 = _take(view, case)
-  b2, ok2 = _take(view, case)        # same seed: must be identical (this time with the unpatched numpy)
-  return {'batches': b1, 'again': b1 == b2, 'features_ok': bool(ok1 and ok2), 'shuffles': rec.shuffles}
+    rec.active = False
+  b2, ok2 = _take(view, case)          # same view, same seed: repeated iteration must be identical
+  b3, ok3 = _take(_view(case), case)   # a fresh view built and iterated with the unpatched numpy
+  inter = _interleaved(view, case, b1) and _interleaved(_view(case), case, b1)
+  return {'batches': b1, 'again': b1 == b2 == b3, 'features_ok': bool(ok1 and ok2 and ok3), 'shuffles': rec.shuffles,
+          'interleaved': bool(inter)}
 
 
 def hang_key(case):
@@ -180,9 +268,12 @@ def oracle(case, obs):
     out.append(('skip-shuffle-cyclic', 'skip_shuffle stream is not the cyclic original order'))
   if not obs['again']:
     out.append(('seed-determinism', 'same seed, repeated iteration gave different batches'))
+  if not obs.get('interleaved', True):
+    out.append(('interleaved-iterators', 'two live iterators over the same seeded view, advanced alternately, '
+                'do not both reproduce the sequential pass'))
   if not obs['features_ok']:
     out.append(('features', 'a batch column does not follow its row index / preprocessor not applied'))
-  if not case['skip'] and n >= 10:
+  if not case['skip'] and n >= 12:   # 1/12! < 3e-9 per case
     if full and full[0] == list(range(n)):
       out.append(('trivial-order', 'first window is the identity order'))
     if len(full) >= 3 and all(w == full[0] for w in full):
@@ -199,7 +290,7 @@ def encode(case, obs):
   windows = fw.clist([fw.natlist(w) for w in obs['shuffles']])
   obs_t = fw.clist([fw.natlist(b) for b in obs['batches']])
   return (f'(mkC04 {n}%nat {case["bs"]}%Z {fw.optz(case["epochs"])}%Z {fw.optz(case["steps"])}%Z '
-          f'{fw.cbool(case["drop"])} {fw.cbool(case["skip"])} {windows}, {obs_t})')
+          f'{fw.cbool(case["drop"])} {fw.cbool(case["skip"])} {windows}, ({obs_t} : C04_obs))')
 
 
 def nontrivial(case, obs):
@@ -210,6 +301,7 @@ def describe(case, obs):
   n, bs = case['n'], case['bs']
   return {'N_vs_bs': 'empty' if n == 0 else 'lt' if n < bs else 'eq' if n == bs else 'multiple' if n % bs == 0 else 'gt',
           'epochs': case['epochs'], 'steps': case['steps'], 'skip': case['skip'], 'drop': case['drop'],
+          'call_form': ['hparams', 'kwargs', 'override'][_form(case)], 'sliced': bool(case.get('pslice')),
           'windows': min(len(obs['batches']) * bs // max(n, 1), 5)}
 
 
@@ -218,9 +310,16 @@ def shrink(case):
     v = case[k]
     for c in sorted({lo, v // 2, v - 1}):
       if lo <= c < v:
-        yield {**case, k: c}
+        cand = {**case, k: c}
+        if k == 'n' and case.get('pslice'):
+          cand['pslice'] = [c + 2, None, c, None]
+        yield cand
   for k in ('epochs', 'steps'):
     v = case[k]
     if v is not None and v > 0:
       yield {**case, k: v - 1}
       yield {**case, k: 1}
+  if _form(case) != 1:
+    yield {**case, 'form': 1}
+  if case.get('pslice'):
+    yield {k: v for k, v in case.items() if k != 'pslice'}
